@@ -476,7 +476,9 @@ def export_sm_element(el):
     elif isinstance(el, ast.EndScope):
         r.update(k="endscope", label=el.name)
     elif isinstance(el, ast.Priority):
-        r.update(k="priority", expr=classify_expr(el.priority_expr), unsupported="priority")
+        r.update(k="priority", expr=classify_expr(el.priority_expr))
+        if not (r["expr"]["k"] == "const" and r["expr"]["t"] == "f" and r["expr"]["v"] in ("1.0", "0.5")):
+            r["unsupported"] = "priority other than 1.0 / 0.5"
     elif isinstance(el, ast.Global):
         r.update(k="global", key=el.name.lstrip("$"), unsupported="global")
     elif isinstance(el, (ast.Log, ast.Print)):
